@@ -142,14 +142,14 @@ def ob_policy(pattern, which, fixed_first, fixed_tmpl=None, shard=None, budget_s
             cond[("s", "VERSION")] = z3.Bool("def_s_VERSION")
         for k, v in plain[:2]:
             src[k] = v
-        warps = symx.choose("warps", 3)  # absent / empty / well-formed
+        warps = symx.choose("warps", 5)  # absent / empty / well-formed / well-formed with a zero length / with a negative length
         rev = symx.choose("rev", 2) if pattern == "all" else 0   # properties in table order or in reverse order
         for i, (k, kind) in (list(enumerate(sim_keys))[::-1] if rev else list(enumerate(sim_keys))):
             if k == "VERSION":
                 continue
             if k == "WARPS":
                 if warps:
-                    src[k] = "" if warps == 1 else "4.000=2.000"
+                    src[k] = ["", "4.000=2.000", "8.000=0.000", "12.000=-1.000,\n16.000=0.000"][warps - 1]
                 continue
             present = pattern == "all" or (pattern == "one" and i == which)
             if present:
@@ -208,7 +208,7 @@ def ob_policy(pattern, which, fixed_first, fixed_tmpl=None, shard=None, budget_s
             return False, ("template modified",)
         # ---- oracle: first offender in source order
         exp, offender = "ok", None
-        if warps == 2:
+        if warps >= 2:
             exp = "notimpl"
         else:
             def scan(items, table, scope):
@@ -559,7 +559,7 @@ def replay(data):
             continue
         if k == "WARPS":
             if warps:
-                src[k] = "" if warps == 1 else "4.000=2.000"
+                src[k] = ["", "4.000=2.000", "8.000=0.000", "12.000=-1.000,\n16.000=0.000"][warps - 1]
             continue
         if pattern == "all" or (pattern == "one" and i == which):
             src[k] = val(k, gb("def_s_" + k))
@@ -599,7 +599,7 @@ def replay(data):
             return k
         return None
     exp, offender = "ok", None
-    if warps == 2:
+    if warps >= 2:
         exp = "notimpl"
     else:
         offender = scan(src.items(), sim_tab)
